@@ -274,14 +274,17 @@ def gen_graph(rng, nmax=10, cyclic=False, pools=True, validations=True, phony=Tr
         elif rng.random() < 0.05 and not b["phony"]:
             b["pool"] = rng.choice(["console", "nosuchpool"])
         b["opts"] = ""
+        b["empty_cmd"] = (not b["phony"]) and rng.random() < 0.05       # a command that expands to nothing is still a command
     lines = ["rule r", "  command = cmd $out $opts"]
+    if any(b["empty_cmd"] for b in builds):
+        lines += ["rule e", "  command = $nothing_bound"]
     for name, depth in pool_decl:
-        lines += ["pool %s" % name, "  depth = %d" % depth]
+        lines += ["pool %s" % name] + (["  depth = %d" % depth] if not (depth == 0 and name == "p1") else [])    # p1: no depth line = unbounded
     for b in builds:
         outs = " ".join(b["outs"][: b["explicit_outs"]])
         if len(b["outs"]) > b["explicit_outs"]:
             outs += " | " + " ".join(b["outs"][b["explicit_outs"]:])
-        l = "build %s: %s %s" % (outs, "phony" if b["phony"] else "r", " ".join(b["explicit"]))
+        l = "build %s: %s %s" % (outs, "phony" if b["phony"] else ("e" if b["empty_cmd"] else "r"), " ".join(b["explicit"]))
         if b["implicit"]:
             l += " | " + " ".join(b["implicit"])
         if b["order_only"]:
@@ -386,8 +389,9 @@ def gen_sched_scenario(rng, **kw):
                 targets.append("nosuchfile")
             targets = [t if rng.random() < 0.8 else "./" + t for t in targets]
         script = gen_script(rng, rng.randint(0, 14), fail_rate=rng.choice([0, 0, 0.15, 0.4]))
-        steps.append(inv_cmd(j, k, False, targets, script))
-        invs.append({"j": j, "k": k, "adopt": False, "targets": targets})
+        adopt = rng.random() < 0.08          # `-t restat`: out-of-date steps are marked up to date, no command runs
+        steps.append(inv_cmd(j, k, adopt, targets, script))
+        invs.append({"j": j, "k": k, "adopt": adopt, "targets": targets})
     return "\n".join(steps), invs, info
 
 
@@ -715,7 +719,7 @@ def closure_of(g, files):
     return wanted
 
 
-def monitor_c18(run, where, inv, j, k, names, sel):
+def monitor_c18(run, where, inv, j, k, names, sel, adopt=False):
     phs = walk_trace(inv, j, k)
     if not phs:
         return
@@ -737,8 +741,8 @@ def monitor_c18(run, where, inv, j, k, names, sel):
     # independent statement of the selection rule
     known = {f["name"] for f in g.files}
     for n in names:
-        if n == "":
-            continue
+        if n == "" or adopt:
+            continue        # (`-t restat` is a tool, not a build: it skips names it does not know, as documented in run.rs)
         import posixpath
         if n not in known and posixpath.normpath(n) not in known and not inv.result.startswith("err:"):
             if main or inv.result.startswith("ok"):
@@ -809,7 +813,7 @@ def sched_check(PROP, THEOREMS, tier, seed, monitors, nscen_quick=600, nscen_tho
             stats["with_cycle_error"] += 1
         for m in monitors:
             if m is monitor_c18:
-                m(run, where, inv, j, k, names, rep["select"])
+                m(run, where, inv, j, k, names, rep["select"], adopt)
             elif m is monitor_c05:
                 m(run, where, inv, j, k, adopt)
             else:
